@@ -663,9 +663,21 @@ class GA:
         return matmul(self.sp.lift(o), self)
 
     def __eq__(self, o):
-        raise Unsupported("elementwise (in)equality test of generic arrays inside the code under contract")
+        """elementwise equality with a number / array: decided EXACTLY in the field (two generic values are equal only if identical), result a mask of Python bools"""
+        try:
+            b = self.sp.lift(o)
+        except Exception:
+            return NotImplemented
+        shape = _bshape(self.shape, b.shape)
+        f = _np.frompyfunc(lambda x, y: bool(x == y), 2, 1)
+        return GA(self.sp, shape, f(self.data, b.data).astype(object))
 
-    __ne__ = __eq__
+    def __ne__(self, o):
+        r = self.__eq__(o)
+        if r is NotImplemented:
+            return r
+        return GA(self.sp, r.shape, _np.frompyfunc(lambda m: not m, 1, 1)(r.data).astype(object))
+
     __hash__ = None
 
     def _cmp(self, o, op):
@@ -1123,6 +1135,28 @@ class NP:
             return abs(a)
         return abs(self.sp.lift(a))
 
+    def cross(self, a, b, axisa=-1, axisb=-1, axisc=-1, axis=None):
+        """cross product of 3-vectors held along the last axis (broadcast on the others)"""
+        if axis not in (None, -1) or (axisa, axisb, axisc) != (-1, -1, -1):
+            a_, b_ = self.sp.lift(a), self.sp.lift(b)
+            ax = axis if axis is not None else axisa
+            if not (ax % a_.ndim == a_.ndim - 1 or a_.ndim == 1) or not ((axis if axis is not None else axisb) % b_.ndim == b_.ndim - 1 or b_.ndim == 1):
+                raise Unsupported("np.cross along another axis than the last one")
+        a, b = self.sp.lift(a), self.sp.lift(b)
+        if not a.shape or not b.shape or a.shape[-1] != 3 or b.shape[-1] != 3:
+            raise Unsupported("np.cross of vectors that are not 3-vectors")
+        shape = _bshape(a.shape, b.shape)
+        A, B = _np.broadcast_arrays(a.data, b.data)
+        out = _np.empty(A.shape, dtype=object)
+        out[..., 0] = A[..., 1] * B[..., 2] - A[..., 2] * B[..., 1]
+        out[..., 1] = A[..., 2] * B[..., 0] - A[..., 0] * B[..., 2]
+        out[..., 2] = A[..., 0] * B[..., 1] - A[..., 1] * B[..., 0]
+        return GA(self.sp, shape, out)
+
+    @property
+    def linalg(self):
+        return _GLinalg(self)
+
     def divide(self, a, b, out=None, where=True, **k):
         a, b = self.sp.lift(a), self.sp.lift(b)
         shape = _bshape(a.shape, b.shape)
@@ -1210,6 +1244,24 @@ class NP:
 
     def isscalar(self, a):
         return isinstance(a, (int, float, Fraction, X))
+
+
+class _GLinalg:
+    def __init__(self, np_):
+        self.np_ = np_
+
+    def __getattr__(self, k):
+        raise Unsupported(f"np.linalg.{k} is not modelled for generic arrays")
+
+    def norm(self, x, ord=None, axis=None, keepdims=False):
+        if ord not in (None, 2):
+            raise Unsupported(f"norm of order {ord}")
+        x = self.np_.sp.lift(x)
+        if axis is None:
+            if x.ndim != 1:
+                raise Unsupported("matrix / global norm of a generic array")
+            axis = 0
+        return self.np_.sqrt(_reduce_sum(x * x, axis, keepdims))
 
 
 # ---------------------------------------------------------------------------------------------- comparison of results
